@@ -8,7 +8,7 @@ pub fn def() -> PropDef {
     PropDef {
         id: "C06",
         builds: BOTH,
-        rule: "every fragment sequence over a finite-valued menu (zero, fractional, negative, huge) up to length n x 9 line-width lists (incl. the empty list) x 3 penalty records; real wrap_first_fit and wrap_optimal_fit results checked for pointer-contiguous, non-empty, in-order, covering runs; non-trivial = a result with >= 2 lines",
+        rule: "every fragment sequence over a finite-valued menu (zero, fractional, negative, huge) up to length n x 12 line-width lists (incl. the empty list and lists with an infinite width) x 3 penalty records; real wrap_first_fit and wrap_optimal_fit results checked for pointer-contiguous, non-empty, in-order, covering runs; non-trivial = a result with >= 2 lines",
         assumptions: BASE_ASSUMPTIONS,
         floor: |t| t.pick(10_000, 30_000),
         run,
@@ -16,7 +16,7 @@ pub fn def() -> PropDef {
 }
 
 fn width_lists() -> Vec<Vec<f64>> {
-    vec![vec![], vec![0.0], vec![3.0], vec![-1.0], vec![0.5], vec![2.0, 5.0], vec![1e300, 1.0], vec![1.0, 2.0, 3.0], vec![1e9]]
+    vec![vec![], vec![0.0], vec![3.0], vec![-1.0], vec![0.5], vec![2.0, 5.0], vec![1e300, 1.0], vec![1.0, 2.0, 3.0], vec![1e9], vec![f64::INFINITY], vec![2.0, f64::INFINITY], vec![f64::INFINITY, 2.0]]
 }
 
 fn space(r: &mut Run, name: &str, menu_f: Vec<Frag>, n: usize) -> Result<(), MachineryError> {
